@@ -1,3 +1,3 @@
 #!/bin/sh
 # replays this counterexample against the real build
-cd /tmp/dbg_C20b && VERIF_SCRIPT=/verif/replays/C20/VHarnessServerSwap_a65167ac_0/script.json VERIF_RAW_SALT=0 GOFLAGS=-mod=mod GOPROXY=off go test -vet=off -count=1 -overlay /verif/replays/C20/VHarnessServerSwap_a65167ac_0/overlay.json -run ^TestVerifReplay_VHarnessServerSwap$ -v ./mint
+cd /tmp/seedrepo_C20b && VERIF_SCRIPT=/verif/replays/C20/VHarnessServerSwap_a65167ac_0/script.json VERIF_RAW_SALT=0 GOFLAGS=-mod=mod GOPROXY=off go test -vet=off -count=1 -overlay /verif/replays/C20/VHarnessServerSwap_a65167ac_0/overlay.json -run ^TestVerifReplay_VHarnessServerSwap$ -v ./mint
